@@ -399,7 +399,7 @@ fn check_forgery(ctx: &mut Ctx, plan: &Plan) -> Res {
     ctx.eval();
     let pr = proto(plan.ietf);
     let pk = RefKey::from_seed(&LT_SEED).public();
-    let args = ClientArgs { ietf: plan.ietf, key: Some(key_string(&pk, plan.key_b64)), nreq: plan.nreq.clamp(1, 4), mode: plan.mode % 3 };
+    let args = ClientArgs { ietf: plan.ietf, key: Some(key_string(&pk, plan.key_b64)), nreq: plan.nreq.clamp(1, 64), mode: plan.mode % 3 };
     let delivered: RefCell<Vec<Vec<u8>>> = RefCell::new(vec![]);
     let run = match run_client(&args, |reqs| {
         let out: Vec<Vec<u8>> = (0..reqs.len()).map(|i| forge(plan, i, reqs)).collect();
@@ -538,7 +538,7 @@ fn batch_strategy() -> impl Strategy<Value = (u8, u8)> {
 }
 
 fn plan_strategy() -> impl Strategy<Value = Plan> {
-    (any::<bool>(), any::<bool>(), prop_oneof![3 => Just(1u8), 2 => 2u8..=4], 0u8..3, batch_strategy(), forgery_strategy(), any::<u8>()).prop_flat_map(|(ietf, key_b64, nreq, mode, (batch, index), forgery, target)| {
+    (any::<bool>(), any::<bool>(), prop_oneof![5 => Just(1u8), 3 => 2u8..=4, 2 => 5u8..=16, 1 => 17u8..=64], 0u8..3, batch_strategy(), forgery_strategy(), any::<u8>()).prop_flat_map(|(ietf, key_b64, nreq, mode, (batch, index), forgery, target)| {
         midp_strategy(ietf).prop_map(move |midp| Plan { ietf, key_b64, nreq, mode, batch, index, midp, target: target % nreq, forgery: forgery.clone() })
     })
 }
@@ -585,6 +585,11 @@ fn fixed_table() -> Vec<Plan> {
             out.push(base(Forgery::Honest, 7, 6, 2, 0));
             out.push(base(Forgery::ReplayPrevious(0), 7, 6, 1, 0));
             out.push(base(Forgery::ReplayPrevious(1), 1, 0, 2, 1));
+            // long multi-request runs (nonce freshness within a run; forgery late in the run)
+            out.push(base(Forgery::Honest, 1, 0, 12, 0));
+            out.push(base(Forgery::CrossRequest(0), 2, 1, 17, 16));
+            out.push(base(Forgery::Region(Comp::CertSig, Edit::Bit(77)), 3, 2, 9, 8));
+            out.push(base(Forgery::Region(Comp::Maxt, Edit::Zero), 1, 0, 33, 20));
         }
     }
     out
@@ -652,7 +657,7 @@ pub struct HonestPlan {
 fn check_honest(ctx: &mut Ctx, p: &HonestPlan) -> Res {
     ctx.eval();
     let pr = proto(p.ietf);
-    let nreq = p.nreq.clamp(1, 4);
+    let nreq = p.nreq.clamp(1, 64);
     let batch = p.batch.clamp(1, 64) as usize;
     let index = p.index as usize % batch;
     let ref_resp = Responder::new(&LT_SEED, &ONLINE_SEED);
@@ -810,7 +815,7 @@ fn check_honest(ctx: &mut Ctx, p: &HonestPlan) -> Res {
 }
 
 fn honest_strategy() -> impl Strategy<Value = HonestPlan> {
-    (any::<bool>(), 0u8..3, prop_oneof![3 => Just(1u8), 1 => 2u8..=4], 0u8..4, batch_strategy(), prop::bool::weighted(0.4)).prop_flat_map(|(ietf, key, nreq, mode, (batch, index), real_server)| {
+    (any::<bool>(), 0u8..3, prop_oneof![6 => Just(1u8), 2 => 2u8..=4, 1 => 5u8..=16, 1 => 17u8..=64], 0u8..4, batch_strategy(), prop::bool::weighted(0.4)).prop_flat_map(|(ietf, key, nreq, mode, (batch, index), real_server)| {
         midp_strategy(ietf).prop_map(move |midp| HonestPlan { ietf, key, nreq, mode, batch, index, midp, real_server })
     })
 }
